@@ -371,11 +371,17 @@ static mut WINDOW_OPEN_AT_RUN: bool = false;
 fn c15_std_migrate_custom_migration() {
     let env = Env::default();
     let _h = shim::fresh_host();
+    // a contract-specific migration may rewrite anything, including the owner entry: the authorisation
+    // that counts is that of the owner stored when migrate was entered
+    let new_owner = Address::symbolic();
     let r = interfaces::migrate::<AxelarGateway>(&env, || unsafe {
         MIGRATION_RUNS += 1;
         WINDOW_OPEN_AT_RUN = inst().post_has(&MIGRATING_KEY);
+        interfaces::set_owner(&env, &new_owner);
     });
     let open = inst().pre_has(&MIGRATING_KEY);
+    let owner_at_entry: Option<Address> = inst().pre(&OWNER_KEY);
+    assert!(r.is_err() || matches!(&owner_at_entry, Some(o) if shim::authed(o)), "OBL C15.migrate_needs_owner_at_entry: a migration runs only under the authorisation of the owner stored when it was entered, whatever the custom migration does to the owner entry");
     let runs = unsafe { MIGRATION_RUNS };
     match r {
         Ok(()) => {
@@ -430,4 +436,37 @@ fn c15_std_migrate_announces_contract_version() {
         );
         kani::cover!(true, "COVER version probe ok");
     }
+}
+
+// ------------------------------------------------------------------------------------------------
+// C03  the lookup queries through which the epoch <-> set relation is observed
+// ------------------------------------------------------------------------------------------------
+#[kani::proof]
+fn c03_lookup_views() {
+    let env = Env::default();
+    let _h = shim::fresh_host();
+    let hsh: BytesN<32> = BytesN::symbolic();
+    let e: u64 = kani::any();
+    let r_epoch = <AxelarGateway as AxelarGatewayInterface>::epoch(&env);
+    let r_by_hash = <AxelarGateway as AxelarGatewayInterface>::epoch_by_signers_hash(&env, hsh);
+    let r_by_epoch = <AxelarGateway as AxelarGatewayInterface>::signers_hash_by_epoch(&env, e);
+    assert!(inst().pre::<_, u64>(&DataKey::Epoch) == Some(r_epoch), "OBL C03.epoch_view_agrees");
+    assert!(
+        match (pers().pre::<_, u64>(&DataKey::EpochBySignersHash(hsh)), r_by_hash) {
+            (Some(x), Ok(y)) => x == y,
+            (None, Err(ContractError::InvalidSignersHash)) => true,
+            _ => false,
+        },
+        "OBL C03.epoch_by_hash_view_agrees: the set -> epoch query reports exactly the stored lookup (InvalidSignersHash if none)"
+    );
+    assert!(
+        match (pers().pre::<_, BytesN<32>>(&DataKey::SignersHashByEpoch(e)), r_by_epoch) {
+            (Some(x), Ok(y)) => x == y,
+            (None, Err(ContractError::InvalidEpoch)) => true,
+            _ => false,
+        },
+        "OBL C03.hash_by_epoch_view_agrees: the epoch -> set query reports exactly the stored lookup (InvalidEpoch if none)"
+    );
+    assert!(shim::no_effects() && shim::n_auth() == 0, "OBL C03.lookup_views_pure");
+    kani::cover!(r_by_hash.is_ok() && r_by_epoch.is_err(), "COVER lookup views mixed");
 }
